@@ -313,3 +313,18 @@ func vStateIndex(s v1beta1.CanaryStepState) int {
 	}
 	return -1
 }
+
+// vNextStep states, independently of util.NextBatchIndex, what "the step after cur" is: cur+1, and -1 after the last
+// step of the plan (the oracle must not move with the helper it checks).
+func vNextStep(r *v1beta1.Rollout, cur int32) int32 {
+	n := int32(0)
+	if r.Spec.Strategy.Canary != nil {
+		n = int32(len(r.Spec.Strategy.Canary.Steps))
+	} else if r.Spec.Strategy.BlueGreen != nil {
+		n = int32(len(r.Spec.Strategy.BlueGreen.Steps))
+	}
+	if cur >= n {
+		return -1
+	}
+	return cur + 1
+}
